@@ -9,7 +9,7 @@ from typing import Dict, List, Optional, Set, Tuple
 
 from ..cfg import CFG, Node
 from ..core import AnalysisError, Cls, Fn, Repo, call_name, calls_in, const_value, dotted, get_kw, last_attr, short, walk_no_nested
-from ..pat import has
+from ..pat import find, has
 from ..report import Check
 
 AV = "agilerl.vector.pz_async_vec_env"
@@ -29,11 +29,61 @@ def _state_assigns(cfg: CFG, const: Optional[str] = None) -> List[Node]:
     return out
 
 
+def _elem_vars(root: ast.AST, attr: str, scope: Optional[ast.AST] = None) -> Set[str]:
+    """Names bound to one element of `self.<attr>` by a for loop or comprehension clause inside root (directly, at the matching
+    position of a zip(...), or through enumerate(...)): the role "one pipe" / "one worker process", whatever the local is called."""
+    out: Set[str] = set()
+    # plain aliases of the container (`pipes = self.parent_pipes`) count as the container
+    alias = {t.id for s in ast.walk(scope if scope is not None else root) if isinstance(s, ast.Assign) and dotted(s.value) == f"self.{attr}" for t in s.targets if isinstance(t, ast.Name)}
+
+    def bind(target: ast.AST, it: ast.AST) -> None:
+        if dotted(it) == f"self.{attr}" or (isinstance(it, ast.Name) and it.id in alias):
+            if isinstance(target, ast.Name):
+                out.add(target.id)
+        elif isinstance(it, ast.Call) and isinstance(it.func, ast.Name) and isinstance(target, (ast.Tuple, ast.List)) and not it.keywords:
+            if it.func.id == "zip" and len(target.elts) == len(it.args):
+                for t, a in zip(target.elts, it.args):
+                    bind(t, a)
+            elif it.func.id == "enumerate" and len(target.elts) == 2 and len(it.args) >= 1:
+                bind(target.elts[1], it.args[0])
+
+    for n in ast.walk(root):
+        if isinstance(n, (ast.For, ast.comprehension)):
+            bind(n.target, n.iter)
+    return out
+
+
+def _loops_over(root: ast.AST, attr: str) -> List[Tuple[ast.For, Set[str]]]:
+    """(for statement, names of its element variable) for every loop inside root that iterates `self.<attr>`."""
+    out = []
+    for n in ast.walk(root):
+        if isinstance(n, ast.For):
+            vs = _elem_vars(ast.For(target=n.target, iter=n.iter, body=[], orelse=[]), attr, scope=root)
+            if vs:
+                out.append((n, vs))
+    out.sort(key=lambda x: x[0].lineno)
+    return out
+
+
+def _is_pipe(x: ast.AST, pipes: Set[str]) -> bool:
+    """x denotes a parent pipe: an element variable of self.parent_pipes or an expression on the `parent_pipes` attribute."""
+    if isinstance(x, ast.Name):
+        return x.id in pipes
+    return any(isinstance(y, ast.Attribute) and y.attr == "parent_pipes" for y in ast.walk(x))
+
+
+def _method_calls_on(root: ast.AST, names: Set[str], method: str, nested: bool = False) -> List[ast.Call]:
+    """Calls `<v>.<method>(...)` inside root whose receiver is one of the given variables."""
+    return [c for c in calls_in(root, nested=nested) if isinstance(c.func, ast.Attribute) and c.func.attr == method
+            and isinstance(c.func.value, ast.Name) and c.func.value.id in names]
+
+
 def _io_nodes(cfg: CFG, kinds=("send", "recv", "poll")) -> List[Node]:
     out = []
+    pipes = _elem_vars(cfg.fn, "parent_pipes")
     for n in cfg.live_nodes():
         for x in n.walk():
-            if isinstance(x, ast.Call) and isinstance(x.func, ast.Attribute) and x.func.attr in kinds and "pipe" in ast.unparse(x.func.value):
+            if isinstance(x, ast.Call) and isinstance(x.func, ast.Attribute) and x.func.attr in kinds and _is_pipe(x.func.value, pipes):
                 out.append(n)
                 break
     return out
@@ -91,7 +141,8 @@ def run(ck: Check, repo: Repo) -> None:
             ck.ob("C13.1", fn, sets[0].ast if sets else fn.node, ok, f"{name}: after sending, the state becomes {const} (its own family) on every normal path",
                   detail=f"state assignments: {[short(s.ast, 60) for s in sets]}")
             # one message per worker
-            loops = [n for n in cfg.live_nodes() if n.kind == "for" and "self.parent_pipes" in ast.unparse(n.ast.iter)]
+            over = [l for l, _ in _loops_over(fn.node, "parent_pipes")]
+            loops = [n for n in cfg.live_nodes() if n.kind == "for" and ("self.parent_pipes" in ast.unparse(n.ast.iter) or n.ast in over)]
             ck.ob("C13.1", fn, loops[0].ast.iter if loops else fn.node, len(loops) == 1, f"{name}: one message is sent to every worker")
         else:
             sets = _state_assigns(cfg)
@@ -243,13 +294,17 @@ def _poll(ck: Check, repo: Repo, cls: Cls) -> None:
     cfg = CFG(fn.node)
     src = ast.unparse(fn.node)
     ck.ob("C13.4", fn, fn.node, has(src, 'if $timeout is None:\n    return True'), "no timeout means wait indefinitely (documented)", construct="timeout None")
-    loops = [n for n in cfg.live_nodes() if n.kind == "for" and "self.parent_pipes" in ast.unparse(n.ast.iter)]
+    over = [l for l, _ in _loops_over(fn.node, "parent_pipes")]
+    loops = [n for n in cfg.live_nodes() if n.kind == "for" and ("self.parent_pipes" in ast.unparse(n.ast.iter) or n.ast in over)]
     ck.ob("C13.4", fn, loops[0].ast.iter if loops else fn.node, len(loops) == 1, "every pipe is polled")
     if loops:
-        body = ast.unparse(ast.Module(body=loops[0].ast.body, type_ignores=[]))
-        ck.ob("C13.4", fn, loops[0].ast, "if pipe is None:\n    return False" in body, "a missing pipe (failed worker) makes the poll fail instead of raising")
-        ck.ob("C13.4", fn, loops[0].ast, "pipe.closed or not pipe.poll(delta)" in body and "return False" in body, "a closed or silent pipe makes the poll fail")
-        ck.ob("C13.4", fn, loops[0].ast, "max(end_time - time.perf_counter(), 0)" in body, "the remaining time budget is shared by all pipes (never negative)")
+        loop = loops[0].ast
+        body = ast.Module(body=loop.body, type_ignores=[])
+        # the pipe is the loop's element variable (computed); $delta / $end_time are whatever the budget locals are called
+        pv = sorted(_elem_vars(ast.For(target=loop.target, iter=loop.iter, body=[], orelse=[]), "parent_pipes", scope=fn.node))
+        ck.ob("C13.4", fn, loop, any(has(body, f'if {v} is None:\n    return False', env_key=loop) for v in pv), "a missing pipe (failed worker) makes the poll fail instead of raising")
+        ck.ob("C13.4", fn, loop, any(has(body, f'{v}.closed or not {v}.poll($delta)', env_key=loop) for v in pv) and has(body, 'return False', env_key=loop), "a closed or silent pipe makes the poll fail")
+        ck.ob("C13.4", fn, loop, has(body, 'max($end_time - time.perf_counter(), 0)', env_key=loop), "the remaining time budget is shared by all pipes (never negative)")
 
 
 def _worker(ck: Check, repo: Repo) -> None:
@@ -271,16 +326,21 @@ def _worker(ck: Check, repo: Repo) -> None:
             ck.ob("C13.3", fn, puts[0] if puts else h, okp, "the handler reports (index, type, value, trace) on the error queue")
             if okp:
                 # type and value come from sys.exc_info()
-                src = ast.unparse(h)
                 el = puts[0].args[0].elts
-                ck.ob("C13.3", fn, puts[0], f"{dotted(el[1])}, {dotted(el[2])}, _ = sys.exc_info()" in src, "type and value are those of the active exception")
+                infos = [s for s in walk_no_nested(h) if isinstance(s, ast.Assign) and isinstance(s.value, ast.Call) and call_name(s.value) == "sys.exc_info"
+                         and len(s.targets) == 1 and isinstance(s.targets[0], ast.Tuple) and len(s.targets[0].elts) == 3]
+                ck.ob("C13.3", fn, puts[0], any(isinstance(el[1], ast.Name) and isinstance(el[2], ast.Name) and [dotted(x) for x in s.targets[0].elts[:2]] == [el[1].id, el[2].id]
+                                                  for s in infos), "type and value are those of the active exception")
             sends = [c for c in calls_in(h) if call_name(c) == "pipe.send"]
             oks = len(sends) == 1 and isinstance(sends[0].args[0], ast.Tuple) and const_value(sends[0].args[0].elts[1]) is False
             ck.ob("C13.3", fn, sends[0] if sends else h, oks, "the handler answers the pending request with success=False so the parent does not block")
             if puts and sends:
                 ck.ob("C13.3", fn, sends[0], puts[0].lineno < sends[0].lineno, "the error is queued before the failure is signalled")
     ck.ob("C13.3", fn, t, ok, "the handler catches every Exception of the sub-environment", construct="except clause of the worker")
-    fin = [c for s in t.finalbody for c in calls_in(s) if call_name(c) == "env.close"]
+    # the environment is the local bound to the result of the `env_fn` parameter
+    envs = {x.id for s in walk_no_nested(fn.node) if isinstance(s, ast.Assign) and isinstance(s.value, ast.Call) and call_name(s.value) == "env_fn"
+            for x in s.targets if isinstance(x, ast.Name)}
+    fin = [c for s in t.finalbody for c in _method_calls_on(s, envs, "close")]
     ck.ob("C13.3", fn, t, bool(fin), "the worker always closes its environment (finally)", construct="finally: env.close()")
     # successful answers carry True; unknown commands raise
     cfg = CFG(fn.node)
@@ -305,7 +365,11 @@ def _close(ck: Check, repo: Repo, cls: Cls) -> None:
         if has(src, 'self._state != AsyncState.DEFAULT') and "_wait" in src:
             hs = [h for h in t.handlers if h.type is not None and "TimeoutError" in ast.unparse(h.type)]
             ok = bool(hs) and any(isinstance(s, ast.Assign) and dotted(s.targets[0]) == "terminate" and const_value(s.value) is True for s in hs[0].body)
-            calls = [c for c in calls_in(t) if isinstance(c.func, ast.Name) and c.func.id == "function"]
+            # the pending wait method: the local bound to getattr(self, f"..._wait") (or that getattr called in place)
+            def is_wait_getattr(v: Optional[ast.AST]) -> bool:
+                return isinstance(v, ast.Call) and call_name(v) == "getattr" and len(v.args) >= 2 and dotted(v.args[0]) == "self" and "_wait" in ast.unparse(v.args[1])
+            waits = {x.id for s in walk_no_nested(t) if isinstance(s, ast.Assign) and is_wait_getattr(s.value) for x in s.targets if isinstance(x, ast.Name)}
+            calls = [c for c in calls_in(t) if (isinstance(c.func, ast.Name) and c.func.id in waits) or is_wait_getattr(c.func)]
             ck.ob("C13.5", fn, calls[0] if calls else t, bool(calls) and calls[0].args and dotted(calls[0].args[0]) == "timeout",
                   "a pending call is awaited with the caller's timeout")
     ck.ob("C13.5", fn, tries[0] if tries else fn.node, ok, "a timeout while waiting for the pending call switches to terminate()")
@@ -314,30 +378,35 @@ def _close(ck: Check, repo: Repo, cls: Cls) -> None:
     tests = [n for n in cfg.live_nodes() if n.kind == "test" and dotted(n.ast) == "terminate"]
     okt = False
     for t in tests:
-        body = ast.unparse(ast.Module(body=t.stmt.body, type_ignores=[]))
-        okt = "for process in self.processes" in body and "process.terminate()" in body
+        body = ast.Module(body=t.stmt.body, type_ignores=[])
+        okt = any(_method_calls_on(l, vs, "terminate") for l, vs in _loops_over(body, "processes"))
     ck.ob("C13.5", fn, tests[0].ast if tests else fn.node, okt, "terminate: every live worker process is terminated")
     # graceful branch: send close to every open pipe, then receive the acknowledgement
     if tests:
         els = tests[0].stmt.orelse
-        src = ast.unparse(ast.Module(body=els, type_ignores=[]))
-        ck.ob("C13.5", fn, els[0] if els else fn.node, src.count("pipe is not None and (not pipe.closed)") >= 2 and has(src, "$pipe.send(('close', None))") and "pipe.recv()" in src,
+        ploops = _loops_over(ast.Module(body=els, type_ignores=[]), "parent_pipes")
+        # per loop over the pipes (v = its element variable, computed): the open-pipe test, the close message, the acknowledgement
+        n_open = sum(len(find(l, f'{v} is not None and (not {v}.closed)', env_key=l)) for l, vs in ploops for v in sorted(vs))
+        ck.ob("C13.5", fn, els[0] if els else fn.node, n_open >= 2 and any(has(l, f"{v}.send(('close', None))", env_key=l) for l, vs in ploops for v in sorted(vs))
+              and any(_method_calls_on(l, vs, "recv") for l, vs in ploops),
               "graceful: close is sent to, and acknowledged by, every pipe that is still open (failed workers skipped)")
     # closing pipes and joining post-dominate the entry (normal paths)
-    closes = [cfg.node_of(c) for c in calls_in(fn.node) if call_name(c) == "pipe.close"]
-    joins = [cfg.node_of(c) for c in calls_in(fn.node) if call_name(c) == "process.join"]
+    pipe_vars, proc_vars = _elem_vars(fn.node, "parent_pipes"), _elem_vars(fn.node, "processes")
+    closes = [cfg.node_of(c) for c in _method_calls_on(fn.node, pipe_vars, "close")]
+    joins = [cfg.node_of(c) for c in _method_calls_on(fn.node, proc_vars, "join")]
     def on_all(nodes):
         if not nodes or nodes[0] is None:
             return False
         n = nodes[0]
         loops = [l for l in cfg.live_nodes() if l.kind == "for" and any(x is n.stmt for x in ast.walk(l.ast))]
         return bool(loops) and cfg.postdominates(loops[0], cfg.entry)
-    ck.ob("C13.5", fn, closes[0].ast if closes and closes[0] else fn.node, on_all(closes) and "self.parent_pipes" in ast.unparse(fn.node),
+    ck.ob("C13.5", fn, closes[0].ast if closes and closes[0] else fn.node, on_all(closes),
           "every normal path closes all parent pipes that still exist")
     ck.ob("C13.5", fn, joins[0].ast if joins and joins[0] else fn.node, on_all(joins), "every normal path joins every worker process")
     # exceptional paths
     ecfg = CFG(fn.node, exceptional=True)
-    ejoins = [n for n in ecfg.live_nodes() if any(isinstance(x, ast.Call) and call_name(x) == "process.join" for x in n.walk())]
+    ejoins = [n for n in ecfg.live_nodes() if any(isinstance(x, ast.Call) and isinstance(x.func, ast.Attribute) and x.func.attr == "join"
+                                                   and isinstance(x.func.value, ast.Name) and x.func.value.id in proc_vars for x in n.walk())]
     jl = [l for l in ecfg.live_nodes() if l.kind == "for" and ejoins and any(x is ejoins[0].stmt for x in ast.walk(l.ast))]
     avoid = {l.id for l in jl}
     p = ecfg.path_avoiding(ecfg.entry, {ecfg.rexit.id}, avoid) if jl else None
@@ -384,6 +453,11 @@ VARIANTS = [
      "        for pipe in self.parent_pipes:\n            pipe.recv()\n\n    def close_extras", "fire", "C13.3"),
     ("wait-try-finally-ok", _AV, "        results, successes = zip(*[pipe.recv() for pipe in self.parent_pipes])\n        self._raise_if_errors(successes)\n        self._state = AsyncState.DEFAULT\n        return results",
      "        try:\n            results, successes = zip(*[pipe.recv() for pipe in self.parent_pipes])\n            self._raise_if_errors(successes)\n        finally:\n            self._state = AsyncState.DEFAULT\n        return results", "silent", None),
+    # behaviour-preserving renames of locals (the rules must go by role, not by spelling)
+    ("poll-locals-renamed-ok", _AV, "        for pipe in self.parent_pipes:\n            delta = max(end_time - time.perf_counter(), 0)\n\n            if pipe is None:\n                return False\n            if pipe.closed or (not pipe.poll(delta)):\n                return False\n",
+     "        for conn in self.parent_pipes:\n            remaining = max(end_time - time.perf_counter(), 0)\n\n            if conn is None:\n                return False\n            if conn.closed or (not conn.poll(remaining)):\n                return False\n", "silent", None),
+    ("close-locals-renamed-ok", _AV, "        for pipe in self.parent_pipes:\n            if pipe is not None:\n                pipe.close()\n        for process in self.processes:\n            process.join()",
+     "        for conn in self.parent_pipes:\n            if conn is not None:\n                conn.close()\n        for worker in self.processes:\n            worker.join()", "silent", None),
 ]
 
 
@@ -394,7 +468,8 @@ def _success_flags(ck: Check, repo: Repo, cls: Cls) -> None:
     for name, m in cls.methods.items():
         if name in ("close_extras", "_raise_if_errors"):
             continue
-        recvs = [c for c in calls_in(m.node, nested=True) if last_attr(c) == "recv" and "pipe" in ast.unparse(c.func.value)]
+        pipes = _elem_vars(m.node, "parent_pipes")
+        recvs = [c for c in calls_in(m.node, nested=True) if last_attr(c) == "recv" and isinstance(c.func, ast.Attribute) and _is_pipe(c.func.value, pipes)]
         if not recvs:
             continue
         n_sites += 1
